@@ -445,6 +445,9 @@ class Poly(meta(metaclass=PolyMeta)):
                                1 if v == 1 else v ** other) # Avoid casting
                               for k, v in iteritems(self._data)),
                   zero=self.zero)
+    if other < 0:
+      raise NotImplementedError("Can't use a negative power on a Poly with "
+                                "more than one term")
     return reduce(operator.mul, [self.copy() for unused in xrange(other - 1)]
                                 + [self])
 
